@@ -575,9 +575,7 @@ def get_true_interval_masks(boolean_vector):
     assert (
         indices.astype(bool) == boolean_vector
     ).all(), "Non-zero indices correspond to True elements of input vector"
-    unique_indices = sorted(set(indices))
-    assert unique_indices[0] == 0
-    del unique_indices[0]
+    unique_indices = sorted(set(indices) - {0})
     return (indices == index for index in unique_indices)
 
 
